@@ -985,10 +985,16 @@ def judge_ast(e, events, ans, model, fold_ok=True):
     if model is not None:
         if fold_ok and fi != model["fold"]:
             out["corr"].append("folded expression differs: impl %s, model %s" % (short(fi, 300), short(model["fold"], 300)))
+        fe = ans["folded"] if not (isinstance(ans["folded"], dict) and set(ans["folded"]) == {"panic"}) else None
         for k, (ev, (ru, rf), (mu, mf)) in enumerate(zip(events, ans["res"], model["res"])):
             if opaque_reason(e, ev):
                 continue
             su, sf = r_result(ru), r_result(rf)
+            # the folded expression can reach an unmodelled operation the unfolded one does not
+            # (e.g. `flag * 0` rewritten to 0 makes `0 ** 1.0` a powf): its side is then left to the
+            # folded==unfolded oracle and not compared with the model
+            if fe is not None and opaque_reason(fe, ev):
+                sf = mf = "-"
             if not fold_ok:
                 sf = mf = "-"          # the fold table could not be regenerated: compare the unfolded side only
             if str(MARKER) in mu or str(MARKER) in mf:
@@ -1103,7 +1109,7 @@ def judge_program(case, ans, models, fold_ok=True):
         if all(is_simple_emit(x) for x in emit_asts):
             continue          # RuntimeOp::Emit (field copy), not the expression evaluator
         per_expr = [[res[idx] for res in m["res"]] for m in models]
-        if any(opaque_reason(x, ev) for x in un for ev in events) or any(str(MARKER) in s for pe in per_expr for s in pe):
+        if any(opaque_reason(x, ev) for x in (un if side == "unfolded" else list(un) + list(fo)) for ev in events) or any(str(MARKER) in s for pe in per_expr for s in pe):
             continue
         # which events does the model say panic on?  (the engine stops at the first)
         panics = False
